@@ -210,6 +210,17 @@ class Unroller(ast.NodeTransformer):
                 flds = [x for x in st.body if isinstance(x, ast.AnnAssign) and isinstance(x.target, ast.Name)]
                 _RECORDS[st.name] = ([x.target.id for x in flds], {x.target.id: x.value for x in flds if x.value is not None and isinstance(x.value, ast.Constant)})
         for st in tree.body:
+            # N = namedtuple("N", ["a", "b"]) / "a b" / "a, b" at module level is a record class as well
+            if isinstance(st, ast.Assign) and len(st.targets) == 1 and isinstance(st.targets[0], ast.Name) and isinstance(st.value, ast.Call) and ast.unparse(st.value.func) in ("namedtuple", "collections.namedtuple") and len(st.value.args) == 2 and not st.value.keywords:
+                spec = st.value.args[1]
+                names = None
+                if isinstance(spec, (ast.List, ast.Tuple)) and all(isinstance(x, ast.Constant) and isinstance(x.value, str) for x in spec.elts):
+                    names = [x.value for x in spec.elts]
+                elif isinstance(spec, ast.Constant) and isinstance(spec.value, str):
+                    names = spec.value.replace(",", " ").split()
+                if names and all(n.isidentifier() for n in names):
+                    _RECORDS[st.targets[0].id] = (names, {})
+        for st in tree.body:
             self._note(st, self.mod_consts, self.mod_funcs)
             if isinstance(st, ast.ClassDef):
                 consts, funcs = {}, {}
@@ -271,9 +282,40 @@ class Unroller(ast.NodeTransformer):
         self.generic_visit(node)
         node.body = self._dispatch_split(node.body, counts)
         self._fold_local_dicts(node, counts)
+        self._fold_local_records(node, counts)
         self.fn_nodes.pop()
         self.fn.pop()
         return node
+
+    def _fold_local_records(self, fn, counts):
+        """r = Record(a=e1, b=e2) bound once at the top level of the function from simple values and only ever read as
+        r.a / r.b: every r.a is e1 (nothing e1 reads may be assigned after the record is made)."""
+        for i, st in enumerate(list(fn.body)):
+            if not (isinstance(st, ast.Assign) and len(st.targets) == 1 and isinstance(st.targets[0], ast.Name) and counts.get(st.targets[0].id) == 1):
+                continue
+            f = _record_fields(st.value)
+            if f is None:
+                continue
+            name = st.targets[0].id
+            uses = [n for n in ast.walk(fn) if isinstance(n, ast.Name) and n.id == name and isinstance(n.ctx, ast.Load)]
+            attrs = [n for n in ast.walk(fn) if isinstance(n, ast.Attribute) and isinstance(n.value, ast.Name) and n.value.id == name and isinstance(n.ctx, ast.Load) and n.attr in f]
+            if not uses or len(uses) != len(attrs):
+                continue
+            read = {n.id for v in f.values() for n in ast.walk(v) if isinstance(n, ast.Name)}
+            later_stores = {n.id for s2 in fn.body[i + 1 :] for n in ast.walk(s2) if isinstance(n, ast.Name) and isinstance(n.ctx, (ast.Store, ast.Del))}
+            if read & later_stores:
+                continue
+
+            class _Sub(ast.NodeTransformer):
+                def visit_Attribute(self_, n):
+                    self_.generic_visit(n)
+                    if isinstance(n.value, ast.Name) and n.value.id == name and isinstance(n.ctx, ast.Load) and n.attr in f:
+                        return ast.copy_location(copy.deepcopy(f[n.attr]), n)
+                    return n
+
+            fn.body = [s2 for s2 in fn.body if s2 is not st]
+            fn.body = [_Sub().visit(s2) for s2 in fn.body] or [ast.copy_location(ast.Pass(), st)]
+            self.count += 1
 
     def _fold_local_dicts(self, fn, counts):
         """d = {"a": e1, "b": e2} bound once at the top level of the function, only ever read as d["a"] / d["b"] with
@@ -951,6 +993,24 @@ class _HoistElement(ast.NodeTransformer):
         return [ast.fix_missing_locations(p) for p in pre] + [node] if pre else node
 
 
+def _collect_records(tree):
+    """record classes of the module (typing.NamedTuple classes, collections.namedtuple assignments) into _RECORDS"""
+    _RECORDS.clear()
+    for st in tree.body:
+        if isinstance(st, ast.ClassDef) and any(ast.unparse(b).split(".")[-1] == "NamedTuple" for b in st.bases) and "__new__" not in {x.name for x in st.body if isinstance(x, ast.FunctionDef)}:
+            flds = [x for x in st.body if isinstance(x, ast.AnnAssign) and isinstance(x.target, ast.Name)]
+            _RECORDS[st.name] = ([x.target.id for x in flds], {x.target.id: x.value for x in flds if x.value is not None and isinstance(x.value, ast.Constant)})
+        if isinstance(st, ast.Assign) and len(st.targets) == 1 and isinstance(st.targets[0], ast.Name) and isinstance(st.value, ast.Call) and ast.unparse(st.value.func) in ("namedtuple", "collections.namedtuple") and len(st.value.args) == 2 and not st.value.keywords:
+            spec = st.value.args[1]
+            names = None
+            if isinstance(spec, (ast.List, ast.Tuple)) and all(isinstance(x, ast.Constant) and isinstance(x.value, str) for x in spec.elts):
+                names = [x.value for x in spec.elts]
+            elif isinstance(spec, ast.Constant) and isinstance(spec.value, str):
+                names = spec.value.replace(",", " ").split()
+            if names and all(n.isidentifier() for n in names):
+                _RECORDS[st.targets[0].id] = (names, {})
+
+
 def _callable_literal(e):
     """lambda without defaults, or operator.attrgetter("name")"""
     if isinstance(e, ast.Lambda):
@@ -1121,8 +1181,86 @@ class _MapExtend(ast.NodeTransformer):
         return node
 
 
+_PURE_NAMES = {"len", "abs", "min", "max", "float", "int", "bool", "sum", "round", "tuple", "sorted"}
+
+
+def _pure_expr(e):
+    """no effect and no identity: constants, names, attribute reads, subscripts, arithmetic, comparisons, conditional
+    expressions, tuples, and calls of numpy / math functions and a few builtins"""
+    for n in ast.walk(e):
+        if isinstance(n, ast.Call):
+            f = n.func
+            root = f
+            while isinstance(root, ast.Attribute):
+                root = root.value
+            ok = (isinstance(f, ast.Name) and (f.id in _PURE_NAMES or f.id in _RECORDS)) or (isinstance(f, ast.Attribute) and isinstance(root, ast.Name) and root.id in ("np", "numpy", "math"))
+            if not ok or any(isinstance(a, ast.Starred) for a in n.args) or any(k.arg is None for k in n.keywords):
+                return False
+        elif isinstance(n, (ast.Lambda, ast.ListComp, ast.SetComp, ast.DictComp, ast.GeneratorExp, ast.NamedExpr, ast.Yield, ast.YieldFrom, ast.Await, ast.Starred, ast.List, ast.Dict, ast.Set)):
+            return False
+    return True
+
+
+def _inline_pure_helpers(tree):
+    """A private module-level function whose body is single assignments of pure expressions to fresh locals followed
+    by `return <pure expression>` is a named expression: a call of it with simple arguments is replaced by that
+    expression (parameters -> arguments, locals -> their definitions).  Nothing is duplicated that could have an effect."""
+    helpers = {}
+    for st in tree.body:
+        if not (isinstance(st, ast.FunctionDef) and st.name.startswith("_") and not st.name.startswith("__") and not st.decorator_list):
+            continue
+        a = st.args
+        if a.vararg or a.kwarg or a.kwonlyargs or a.posonlyargs or a.defaults:
+            continue
+        body = [x for x in st.body if not (isinstance(x, ast.Expr) and isinstance(x.value, ast.Constant))]
+        if not body or not isinstance(body[-1], ast.Return) or body[-1].value is None:
+            continue
+        params = [p.arg for p in a.args]
+        seen, ok = set(params), True
+        for x in body[:-1]:
+            tgt = x.targets[0] if isinstance(x, ast.Assign) and len(x.targets) == 1 else x.target if isinstance(x, ast.AnnAssign) and x.value is not None else None
+            if not isinstance(tgt, ast.Name) or tgt.id in seen or not _pure_expr(x.value):
+                ok = False
+                break
+            seen.add(tgt.id)
+        if ok and _pure_expr(body[-1].value) and len(body) > 1:
+            helpers[st.name] = (params, body)
+    if not helpers:
+        return 0
+    count = [0]
+
+    class _Inl(ast.NodeTransformer):
+        def visit_FunctionDef(self, node):
+            if node.name in helpers:
+                return node
+            self.generic_visit(node)
+            return node
+
+        def visit_Call(self, node):
+            self.generic_visit(node)
+            if isinstance(node.func, ast.Name) and node.func.id in helpers and not node.keywords and not any(isinstance(x, ast.Starred) for x in node.args):
+                params, body = helpers[node.func.id]
+                if len(node.args) != len(params) or not all(_simple(x) for x in node.args):
+                    return node
+                env = dict(zip(params, node.args))
+                for x in body[:-1]:
+                    tgt = x.targets[0] if isinstance(x, ast.Assign) else x.target
+                    env[tgt.id] = _Subst(env).visit(copy.deepcopy(x.value))
+                out = _Subst(env).visit(copy.deepcopy(body[-1].value))
+                if sum(1 for _ in ast.walk(out)) > 600:
+                    return node
+                count[0] += 1
+                return ast.copy_location(out, node)
+            return node
+
+    _Inl().visit(tree)
+    return count[0]
+
+
 def normalise(tree):
     """unroll table-driven loops and fold constant getattr / setattr; returns (tree, number of loops unrolled)"""
+    _collect_records(tree)
+    _inline_pure_helpers(tree)
     _delegations(tree)
     tree = _MapExtend(tree).visit(tree)
     u = Unroller(tree)
